@@ -12,8 +12,10 @@ git -C /repo worktree remove --force $WT >/dev/null 2>&1; rm -rf $WT
 git -C /repo worktree add -q --detach $WT HEAD >>$LOG 2>&1 || { echo "worktree failed"; exit 2; }
 cd $WT
 res() { echo "$1" >> $LOG; }
+# a demo whose own build line asks for AddressSanitizer (memory errors that do not change results) gets it here too
+SAN=""; head -5 $SEED/demo.cc | grep -q -- "-fsanitize=address" && SAN="-g -fsanitize=address -fno-omit-frame-pointer"
 demo_build() {
-  g++ -std=c++17 -O1 -I $WT/include -I $WT/src $SEED/demo.cc $WT/src/time_zone_{fixed,format,if,impl,info,libc,lookup,posix}.cc \
+  g++ -std=c++17 -O1 $SAN -I $WT/include -I $WT/src $SEED/demo.cc $WT/src/time_zone_{fixed,format,if,impl,info,libc,lookup,posix}.cc \
     $WT/src/zone_info_source.cc $WT/src/civil_time_detail.cc -lpthread -o $WT/demo_bin >>$LOG 2>&1
 }
 demo_run() { ( cd $WT && TZDIR=$WT/testdata/zoneinfo timeout 600 ./demo_bin >>$LOG 2>&1 ); }
